@@ -160,10 +160,11 @@ def _lit(draw, model):
 
 BIN = ["add", "sub", "mul", "iadd"]
 OPS_WEIGHTED = (["lit"] * 3 + ["ident"] + ["add"] * 4 + ["sub"] * 3 + ["mul"] * 6 + ["smul"] * 2 + ["rsmul"] * 2 + ["div"] * 2 +
-                ["neg"] * 2 + ["iadd"] * 2 + ["sum"] + ["prod"] * 2 + ["sprod"] * 2 + ["simplify"] * 5 + ["squeeze"] * 3 +
+                ["neg"] * 2 + ["iadd"] * 2 + ["sum"] + ["addn"] * 3 + ["prod"] * 2 + ["sprod"] * 2 + ["simplify"] * 5 + ["squeeze"] * 3 +
                 ["copy", "tolist"] + ["split"] * 2 + ["twin"] * 3 + ["bad"] * 2 + ["zero"] + ["checkterms"])
 
 N_BAD = 36
+ADDN_PATTERNS = [[0, 1, 0, 0], [0, 1, 0, 1, 0], [0, 0, 0], [0, 1, 1, 0, 1], [1, 0, 2, 0, 0], [0, 1, 2, 0, 1], [0, 0, 1, 0], [2, 1, 2, 0, 2]]
 
 
 @st.composite
@@ -174,7 +175,7 @@ def _instr(draw, model):
     ins = {"op": op, "a": draw(st.integers(0, 7))}
     if op in BIN or op in ("smul", "rsmul", "neg", "squeeze", "split", "twin"):
         # preferred operand kinds (first live register of that kind, cyclically from the index; any register if none)
-        ins["ka"] = draw(st.sampled_from(["any", "op", "sum", "sum"]))
+        ins["ka"] = draw(st.sampled_from(["any", "op", "sum", "sum", "list"] if op in ("add", "mul") else ["any", "op", "sum", "sum"]))
     if op in BIN:
         # operands drawn from a small range so that a register meets itself often (a+a, a-a, a*a)
         ins["b"] = draw(st.integers(0, 7))
@@ -188,6 +189,12 @@ def _instr(draw, model):
         ins["c"] = draw(_scalar(ZERO_D_BIASED if draw(st.integers(0, 3)) == 0 else PLAIN_SCALARS))
     elif op == "div":
         ins["c"] = draw(_scalar(ALL_SCALARS if draw(st.integers(0, 5)) == 0 else PLAIN_SCALARS, nonzero=True))
+    elif op == "addn":
+        # chained + / - over 3-5 operands drawn from a very small index range: the same term occurs 3 or more times
+        ins["regs"] = draw(st.sampled_from(ADDN_PATTERNS)) if draw(st.booleans()) else \
+            [draw(st.integers(0, 2)) for _ in range(draw(st.integers(3, 5)))]
+        ins["signs"] = [draw(st.sampled_from([1, 1, -1])) for _ in ins["regs"]]
+        ins["simp"] = draw(st.sampled_from([None, 0, 0, 1e-6, 0.05, 0.5]))  # simplify the chain right away
     elif op in ("sum", "prod", "sprod"):
         ins["regs"] = [draw(st.integers(0, 7)) for _ in range(draw(st.integers(1, 3)))]
         ins["start"] = draw(st.booleans())
@@ -235,7 +242,7 @@ def tokens(symbol):
 
 
 def verbatim_tokens(symbol):
-    """simple symbols of a symbol string in their original spelling ('b^\dagger + b' and 'b^\dagger+b' are kept apart)."""
+    r"""simple symbols of a symbol string in their original spelling ('b^\dagger + b' and 'b^\dagger+b' are kept apart)."""
     return [BDAGB if w == "\0" else w for w in symbol.replace(BDAGB, "\0").split(" ")]
 
 
@@ -285,11 +292,11 @@ class Ctx:
         tk = tokens(op.symbol)
         dofs = list(op.dofs)
         if len(tk) != len(dofs):
-            raise _Malformed(f"{len(tk)} simple symbols but {len(dofs)} DoFs in {op!r}")
+            raise _Malformed(f"{len(tk)} simple symbols but {len(dofs)} DoFs in {rp(op)}")
         out = []
         for w, d in zip(tk, dofs):
             if d not in self.dofmap:
-                raise _Malformed(f"DoF {d!r} of {op!r} is not a DoF of the model")
+                raise _Malformed(f"DoF {rp(d)} of {rp(op)} is not a DoF of the model")
             s, ld = self.dofmap[d]
             out.append((s, w, ld))
         return out
@@ -310,6 +317,14 @@ class Ctx:
 
 class _Malformed(Exception):
     pass
+
+
+def rp(x):
+    """repr that cannot raise (Op.__str__ builds an array from qn_list and fails on ragged lists)"""
+    try:
+        return repr(x)
+    except Exception as e:  # noqa
+        return f"<unprintable {type(x).__name__}: {type(e).__name__}>"
 
 
 class Reg:
@@ -503,22 +518,22 @@ class _Run:
         """classify an exception raised by a library operation."""
         sig, in_lib = lib_exception_sig(e)
         if ok_expected:
-            self.r.fail(f"{name}.{sig}", f"{what}: in-domain operation raised {e!r}")
+            self.r.fail(f"{name}.{sig}", f"{what}: in-domain operation raised {rp(e)}")
             return
         if isinstance(e, REFUSAL):
             self.cls.add(f"refused.{name}")
             return
-        self.r.fail(f"{name}.bad_refusal.{type(e).__name__}", f"{what}: out-of-domain operand raised {e!r} instead of TypeError/ValueError")
+        self.r.fail(f"{name}.bad_refusal.{type(e).__name__}", f"{what}: out-of-domain operand raised {rp(e)} instead of TypeError/ValueError")
 
     def wellformed(self, name, obj):
         from renormalizer.model import Op
 
         k = kind_of(obj)
         if k is None:
-            self.r.fail(f"{name}.result_type", f"result of type {type(obj).__name__}: {obj!r}"[:300])
+            self.r.fail(f"{name}.result_type", f"result of type {type(obj).__name__}: {rp(obj)}"[:300])
             return None
         if k != "op" and not all(isinstance(t, Op) for t in obj):
-            self.r.fail(f"{name}.result_contains_non_op", f"{obj!r}"[:300])
+            self.r.fail(f"{name}.result_contains_non_op", f"{rp(obj)}"[:300])
             return None
         return k
 
@@ -607,15 +622,15 @@ class _Run:
             dofarg = list(dofs)
         obj, e = self.call(Op, symbol, dofarg, f, qn)
         if e is not None:
-            self.refused_or_fail("lit", e, True, f"Op({symbol!r}, {dofarg!r}, {f!r}, {qn!r})")
+            self.refused_or_fail("lit", e, True, f"Op({rp(symbol)}, {rp(dofarg)}, {rp(f)}, {rp(qn)})")
             return
         m, n = ctx.den_words(words)
-        g = self.den_check("lit", obj, fval * m, abs(fval) * n, what=f"Op({symbol!r}, {dofarg!r}, {f!r}, qn={qn!r})")
+        g = self.den_check("lit", obj, fval * m, abs(fval) * n, what=f"Op({rp(symbol)}, {rp(dofarg)}, {rp(f)}, qn={rp(qn)})")
         if g is None:
             return
         st_ = struct(obj)
         self.r.check("lit.struct", st_ == (tuple(w for _, w, _ in words), tuple(dofs), tuple(tuple(q) for q in expect)),
-                     f"fields of Op({symbol!r}, {dofarg!r}, qn={qn!r}): {st_}")
+                     f"fields of Op({rp(symbol)}, {rp(dofarg)}, qn={rp(qn)}): {st_}")
         self.r.check("lit.qn_total", list(np.asarray(obj.qn).reshape(-1)) == list(np.sum(np.array(expect), axis=0))
                      and obj.qn_size == len(expect[0]), f"qn {obj.qn} qn_size {obj.qn_size} expected sum of {expect}")
         self.cls.add(f"lit.words={len(words)}")
@@ -642,9 +657,9 @@ class _Run:
             dofarg = ctx.dof(picks[0][0], picks[0][2])
         obj, e = self.call(lambda: Op.identity(dofarg, qn_size=ctx.qs, factor=f))
         if e is not None:
-            self.refused_or_fail("ident", e, True, f"Op.identity({dofarg!r})")
+            self.refused_or_fail("ident", e, True, f"Op.identity({rp(dofarg)})")
             return
-        g = self.den_check("ident", obj, fval * np.eye(ctx.D), abs(fval), what=f"Op.identity({dofarg!r}, factor={f!r})")
+        g = self.den_check("ident", obj, fval * np.eye(ctx.D), abs(fval), what=f"Op.identity({rp(dofarg)}, factor={rp(f)})")
         if g is not None:
             self.r.check("ident.fields", obj.is_identity and obj.qn_size == ctx.qs and not np.any(obj.qn),
                          f"is_identity={obj.is_identity} qn_size={obj.qn_size} qn={obj.qn}")
@@ -664,6 +679,12 @@ class _Run:
     def do_binary(self, ins):
         op = ins["op"]
         a, b = self.reg(ins["a"], prefer=ins.get("ka")), self.reg(ins["b"], prefer=ins.get("kb"))
+        # a plain list of Op is a documented operand (Op + list, Op * list, list * Op, OpSum + list ...): when one is asked
+        # for and no list register is live, the terms of an OpSum are handed over as a plain list
+        if ins.get("ka") == "list" and a.kind == "sum" and op != "iadd":
+            a = Reg(list(a.obj), "list", a.ref, a.scale, a.taint)
+        if ins.get("kb") == "list" and b.kind == "sum":
+            b = Reg(list(b.obj), "list", b.ref, b.scale, b.taint)
         na, nb = a.nterms(), b.nterms()
         if op == "mul":
             if na * nb > MAX_TERMS or a.maxwords() + b.maxwords() > MAX_WORDS:
@@ -739,7 +760,7 @@ class _Run:
             res, e = self.call(operator.truediv, a.obj, c)
         self.cls.add(f"scalar.{op}.{a.kind}.{sk}")
         if e is not None:
-            self.refused_or_fail(f"{name}.{sk}" if not ok_exp else name, e, ok_exp, f"{a.kind} {op} {c!r}")
+            self.refused_or_fail(f"{name}.{sk}" if not ok_exp else name, e, ok_exp, f"{a.kind} {op} {rp(c)}")
             self.unchanged(name, before)
             return
         if isinstance(res, np.ndarray) and res.shape == ():
@@ -757,7 +778,7 @@ class _Run:
         # OpSum / c is documented as  self * (1/c) : with a float32 divisor 1/c is rounded to float32 (rel. 2**-24 = 6e-8);
         # this is NumPy's arithmetic for the operand type the caller chose, not a defect of the algebra
         extra = 2e-7 * scale if (op == "div" and sk == "np.float32") else 0.0
-        g = self.den_check(name + (".float32" if extra else "") + lenient, res, ref, scale, extra_tol=extra, what=f"{a.kind} {op} {c!r}",
+        g = self.den_check(name + (".float32" if extra else "") + lenient, res, ref, scale, extra_tol=extra, what=f"{a.kind} {op} {rp(c)}",
                            rebase=bool(extra))
         self.unchanged(name, before)
         if g is None:
@@ -806,6 +827,30 @@ class _Run:
         self.n_sumop += len(gs) > 1
         if g is not None:
             self.push(g, any(x.taint for x in gs))
+
+    def do_addn(self, ins):
+        gs = [self.reg(ins["a"] + i, ("op", "sum")) for i in ins["regs"]]
+        if any(g is None for g in gs) or sum(g.nterms() for g in gs) > MAX_TERMS:
+            return
+        before = [(g, snap(g.obj)) for g in gs]
+        def chain():
+            acc = gs[0].obj if ins["signs"][0] > 0 else -gs[0].obj
+            for g, sg in zip(gs[1:], ins["signs"][1:]):
+                acc = acc + g.obj if sg > 0 else acc - g.obj
+            return acc
+        res, e = self.call(chain)
+        if e is not None:
+            self.refused_or_fail("addn", e, True, "a +/- b +/- c ...")
+            return
+        ref = sum(sg * g.ref for g, sg in zip(gs, ins["signs"]))
+        h = self.den_check("addn", res, ref, sum(g.scale for g in gs), what=f"chained +/- of {[g.kind for g in gs]}")
+        self.unchanged("addn", before)
+        self.n_sumop += 1
+        self.cls.add(f"addn.n={len(gs)}")
+        if h is not None:
+            self.push(h, any(g.taint for g in gs))
+            if ins.get("simp") is not None:
+                self.do_simplify({"a": [i for i, g in enumerate(self.regs) if g is h][0], "atol": ins["simp"]})
 
     def do_prod(self, ins):
         from renormalizer.model import Op, OpSum
@@ -877,10 +922,10 @@ class _Run:
         if e is not None:
             if self.is_f5(e, T):
                 self.r.fail("squeeze_identity.multi_qn_identity_ambiguous_truth",
-                            f"OpSum.simplify({atol}) on terms with {T[0].qn_size} quantum-number components and an identity factor: {e!r}")
+                            f"OpSum.simplify({atol}) on terms with {T[0].qn_size} quantum-number components and an identity factor: {rp(e)}")
                 self.cls.add("F5.region_hit")
             else:
-                self.refused_or_fail("simplify", e, True, f"simplify(atol={atol}) of {T!r}"[:400])
+                self.refused_or_fail("simplify", e, True, f"simplify(atol={atol}) of {rp(T)}"[:400])
             return
         _, _, mx = self.ctx.den_terms(T) if T else (None, None, 0.0)
         bound = len(T) * float(atol) * mx
@@ -907,11 +952,11 @@ class _Run:
         R = list(res)
         keys = [(tuple(tokens(t.symbol)), tuple(t.dofs)) for t in R]
         self.r.check("simplify.duplicate_terms_left", len(keys) == len(set(keys)),
-                     f"two terms with the same symbol and DoFs remain: {R!r}"[:500])
+                     f"two terms with the same symbol and DoFs remain: {rp(R)}"[:500])
         self.r.check("simplify.negligible_term_left", all(abs(t.factor) > atol for t in R),
                      f"term with |factor| <= atol={atol} remains: {[t.factor for t in R]}"[:300])
         self.r.check("simplify.identity_left", all(("I" not in k[0]) or k[0] == ("I",) for k in keys),
-                     f"identity factor not removed: {R!r}"[:300])
+                     f"identity factor not removed: {rp(R)}"[:300])
         self.r.check("simplify.grew", len(R) <= len(T), f"{len(T)} terms -> {len(R)} terms")
         # the total quantum number of a merged term is that of (one of) the terms it came from
         def sq(t):
@@ -953,7 +998,7 @@ class _Run:
                 self.r.check("simplify.kept_term_factor", ok, f"term {k}: merged factor {f} expected, result has {got.get(k)} (atol={atol})")
             else:
                 self.r.check("simplify.dropped_term_present", k not in got, f"term {k} with merged factor {f} should be dropped at atol={atol}")
-        self.r.check("simplify.unknown_term", all(k in merged for k in got), f"result contains terms that are not in the input: {R!r}"[:300])
+        self.r.check("simplify.unknown_term", all(k in merged for k in got), f"result contains terms that are not in the input: {rp(R)}"[:300])
 
     def do_squeeze(self, ins):
         a = self.reg(ins["a"], prefer=ins.get("ka"))
@@ -966,19 +1011,19 @@ class _Run:
         if e is not None:
             if self.is_f5(e, [t]):
                 self.r.fail("squeeze_identity.multi_qn_identity_ambiguous_truth",
-                            f"{t!r}.squeeze_identity() ({t.qn_size} quantum-number components, identity factor): {e!r}")
+                            f"{rp(t)}.squeeze_identity() ({t.qn_size} quantum-number components, identity factor): {rp(e)}")
                 self.cls.add("F5.region_hit")
             else:
-                self.refused_or_fail("squeeze", e, True, f"{t!r}.squeeze_identity()")
+                self.refused_or_fail("squeeze", e, True, f"{rp(t)}.squeeze_identity()")
             return
         m, n = self.ctx.den_words(self.ctx.words_of(t))
         f = complex(t.factor)
-        g = self.den_check("squeeze", res, f * m, abs(f) * n, what=f"{t!r}.squeeze_identity()")
+        g = self.den_check("squeeze", res, f * m, abs(f) * n, what=f"{rp(t)}.squeeze_identity()")
         self.r.check("squeeze.operand_mutated", snap(t) == before, "squeeze_identity changed its operand")
         if g is None:
             return
         tk = tokens(res.symbol)
-        self.r.check("squeeze.identity_left", g.kind == "op" and ("I" not in tk or tk == ["I"]), f"{t!r} -> {res!r}")
+        self.r.check("squeeze.identity_left", g.kind == "op" and ("I" not in tk or tk == ["I"]), f"{rp(t)} -> {rp(res)}")
         self.r.check("squeeze.factor", complex(res.factor) == f, f"factor {t.factor} -> {res.factor}")
         self.r.check("squeeze.qn_total", res.qn_size == t.qn_size and np.array_equal(np.asarray(res.qn).reshape(-1), np.asarray(t.qn).reshape(-1)),
                      f"qn {t.qn} (size {t.qn_size}) -> {res.qn} (size {res.qn_size})")
@@ -990,7 +1035,7 @@ class _Run:
             if e is not None or not same:
                 respelled = BDAGB in t.symbol and res.symbol == t.symbol.replace(BDAGB, r"b^\dagger+b")
                 self.r.fail("squeeze.no_identity.respells_bdagger_plus_b" if respelled else "squeeze.no_identity.not_equal",
-                            f"{t!r} has no identity factor but squeeze_identity() returned {res!r}, which compares unequal "
+                            f"{rp(t)} has no identity factor but squeeze_identity() returned {rp(res)}, which compares unequal "
                             f"(symbol {res.symbol!r} vs {t.symbol!r})")
         self.push(g, a.taint)
 
@@ -1018,7 +1063,7 @@ class _Run:
         t = T[ins.get("b", 0) % len(T)]
         res, e = self.call(t.split_elementary, dict(self.ctx.dof_to_site))
         if e is not None:
-            self.refused_or_fail("split", e, True, f"{t!r}.split_elementary")
+            self.refused_or_fail("split", e, True, f"{rp(t)}.split_elementary")
             return
         ok = isinstance(res, tuple) and len(res) == 2 and self.wellformed("split", list(res[0])) is not None
         if not ok:
@@ -1038,7 +1083,7 @@ class _Run:
             return
         f = complex(t.factor)
         self.r.check_close("split.den", complex(factor) * prod / max(abs(f) * n, 1e-300), f * m / max(abs(f) * n, 1e-300), RTOL_ALG,
-                           f"{t!r}.split_elementary: product of the elementary operators times the factor")
+                           f"{rp(t)}.split_elementary: product of the elementary operators times the factor")
         self.r.check("split.one_site_each", all(len(s) == 1 for s in sites) and [s[0] for s in sites] == sorted({s[0] for s in sites}),
                      f"sites of the elementary operators: {sites}")
         self.r.check("split.factors", complex(factor) == f and all(o.factor == 1 for o in ops), f"factor {factor}, element factors {[o.factor for o in ops]}")
@@ -1060,7 +1105,7 @@ class _Run:
         _, dofs, qn = struct(t)
         words = tuple(verbatim_tokens(t.symbol))  # same spelling: == compares the symbol strings
         if len(words) != len(dofs):
-            raise _Malformed(f"{t!r}")
+            raise _Malformed(f"{rp(t)}")
         f = t.factor
         fc = complex(f)
         # factor by another route
@@ -1097,9 +1142,9 @@ class _Run:
             mk = lambda: Op(t.symbol, dv, 1.0, qv) * fv if not isinstance(fv, Quantity) else Op(t.symbol, dv, fv, qv)
         tw, e = self.call(mk)
         if e is not None:
-            self.refused_or_fail(f"twin.route{route}", e, True, f"equal-by-another-route construction of {t!r}")
+            self.refused_or_fail(f"twin.route{route}", e, True, f"equal-by-another-route construction of {rp(t)}")
             return
-        what = f"{t!r} vs twin (route {route}, factor {fv!r}, qn {qv!r}) {tw!r}"
+        what = f"{rp(t)} vs twin (route {route}, factor {rp(fv)}, qn {rp(qv)}) {rp(tw)}"
         res, e = self.call(lambda: (t == tw, tw == t, t != tw, hash(t) == hash(tw), len({t, tw}), t.same_term(tw)))
         if e is not None:
             self.refused_or_fail("twin.compare", e, True, what)
@@ -1129,10 +1174,10 @@ class _Run:
             pw = "qn"
         res, e = self.call(lambda: (t == other, other == t, t != other, len({t, other})))
         if e is not None:
-            self.refused_or_fail("eq.compare", e, True, f"{t!r} == {other!r}")
+            self.refused_or_fail("eq.compare", e, True, f"{rp(t)} == {rp(other)}")
             return
         self.r.check(f"eq.differs_in_{pw}_but_equal", res[0] is False and res[1] is False and res[2] is True and res[3] == 2,
-                     f"{t!r} vs {other!r}: == {res[0]}/{res[1]}, != {res[2]}, set size {res[3]}")
+                     f"{rp(t)} vs {rp(other)}: == {res[0]}/{res[1]}, != {res[2]}, set size {res[3]}")
 
     def pairwise_eq(self):
         ops = [g.obj for g in self.regs if g.kind == "op"][:6]
@@ -1141,13 +1186,13 @@ class _Run:
                 x, y = ops[i], ops[j]
                 res, e = self.call(lambda: (x == y, y == x, x != y, hash(x), hash(y)))
                 if e is not None:
-                    self.refused_or_fail("eq.compare", e, True, f"{x!r} == {y!r}")
+                    self.refused_or_fail("eq.compare", e, True, f"{rp(x)} == {rp(y)}")
                     continue
                 sx = (x.symbol, tuple(x.dofs), complex(x.factor), struct(x)[2])
                 sy = (y.symbol, tuple(y.dofs), complex(y.factor), struct(y)[2])
                 self.r.check("eq.inconsistent", res[0] == res[1] == (not res[2]) and (not res[0] or res[3] == res[4]),
-                             f"{x!r}, {y!r}: == {res[0]}/{res[1]}, != {res[2]}, hashes equal {res[3] == res[4]}")
-                self.r.check("eq.vs_fields", bool(res[0]) == (sx == sy), f"{x!r} == {y!r} is {res[0]} but fields equal is {sx == sy}")
+                             f"{rp(x)}, {rp(y)}: == {res[0]}/{res[1]}, != {res[2]}, hashes equal {res[3] == res[4]}")
+                self.r.check("eq.vs_fields", bool(res[0]) == (sx == sy), f"{rp(x)} == {rp(y)} is {res[0]} but fields equal is {sx == sy}")
 
     # -- invalid operands -----------------------------------------------------------------------------------------
     def do_bad(self, ins):
@@ -1183,9 +1228,9 @@ class _Run:
         res, e = self.call(fn)
         self.cls.add("bad." + name)
         if e is None:
-            self.r.fail(f"invalid.accepted.{name}", f"{name}: returned {res!r} instead of raising TypeError/ValueError"[:400])
+            self.r.fail(f"invalid.accepted.{name}", f"{name}: returned {rp(res)} instead of raising TypeError/ValueError"[:400])
         elif not isinstance(e, REFUSAL):
-            self.r.fail(f"invalid.bad_refusal.{name}", f"{name}: raised {e!r}")
+            self.r.fail(f"invalid.bad_refusal.{name}", f"{name}: raised {rp(e)}")
         else:
             self.cls.add(f"refusal_type.{type(e).__name__}")
         self.unchanged("invalid", before)
@@ -1229,7 +1274,7 @@ class _Run:
             return
         flat = [t for t in a.terms() + b.terms() if t.factor != 0]
         self.r.check("checkterms.filter", len(res) == len(flat) and all(x is y for x, y in zip(res, flat)),
-                     f"ham_terms {res!r} vs non-zero input terms {flat!r}"[:500])
+                     f"ham_terms {rp(res)} vs non-zero input terms {rp(flat)}"[:500])
         if len(flat) < a.nterms() + b.nterms():
             self.cls.add("checkterms.zero_dropped")
 
@@ -1350,7 +1395,7 @@ class _Run:
             sig, in_lib = lib_exception_sig(e)
             if not in_lib:
                 raise e
-            self.r.fail(f"tiein.{form}.{sig}", f"Mpo(model, expression of {len(terms)} terms) raised {e!r}")
+            self.r.fail(f"tiein.{form}.{sig}", f"Mpo(model, expression of {len(terms)} terms) raised {rp(e)}")
             return
         sig = f"tiein.{algo}"
         if self.multi_identity_on_multi_electron_site(terms):
@@ -1371,7 +1416,7 @@ class _Run:
             return r
         table = {"lit": self.do_lit, "ident": self.do_ident, "add": self.do_binary, "sub": self.do_binary, "mul": self.do_binary,
                  "iadd": self.do_binary, "smul": self.do_scalar, "rsmul": self.do_scalar, "div": self.do_scalar, "neg": self.do_neg,
-                 "sum": self.do_sum, "prod": self.do_prod, "sprod": self.do_prod, "simplify": self.do_simplify,
+                 "sum": self.do_sum, "addn": self.do_addn, "prod": self.do_prod, "sprod": self.do_prod, "simplify": self.do_simplify,
                  "squeeze": self.do_squeeze, "copy": self.do_copy, "tolist": self.do_copy, "split": self.do_split,
                  "twin": self.do_twin, "bad": self.do_bad, "zero": self.do_zero, "checkterms": self.do_checkterms}
         for ins in self.spec["prog"]:
